@@ -5,6 +5,8 @@ ALL ordered lists of 0..3 boxes (with repetitions -> identical regions), lists o
 overlap in both axes (the recursive decouple fallback), lists over a polygon alphabet (triangles, L, concave, nested); regions
 carrying 0..3 text lines each (4 patterns) with de-skew angle 0 / +3 / -3 degrees; both sorters; FakeIntersectionParameter in {0, 0.1, 0.5},
 ImageWidthDenominator in {1, 10, 100}.  Every call runs under a recursion limit and a 5 s alarm.
+Environment of the call (PAGE_INFO): what the sorter is told about the page - image and page_size, page_size only (image None), neither
+(image None and the (0, 0) page_size of a hand-built PageLayout), image only - on the 2-box lists, 2-polygon lists and large layouts.
 
 Oracle: the output region list is a permutation of the input OBJECTS, each with its lines / ids / text untouched; polygons equal the
 originals as shapes (1e-6, closing point ignored); no exception (0 and 1 regions included).
@@ -19,8 +21,8 @@ ID = 'C12'
 
 MANIFEST = dict(
     technique='explicit-state enumeration of ordered region lists over a box / polygon lattice x sorter parameters on the real SmartRegionSorter and NaiveRegionSorter under recursion and time limits; permutation/identity oracle',
-    text='Bounded exhaustive: every ordered list of 0-2 boxes over the 36-box lattice (incl. degenerate and identical boxes), every list of 3 boxes over a 16-box sub-lattice (quick) / all 36 (thorough), every list of 4 boxes over 6 (quick) / 4-5 boxes over 9 (thorough) mutually overlapping boxes, every list of 1-3 polygons over a 6-polygon alphabet, each with de-skew 0 / +-3 degrees, for the smart sorter with 3 intersection parameters and the naive sorter with 3 width denominators (about 5e4 sorter calls quick, 7e5 thorough). Each call must terminate (recursion limit 400, 5 s alarm), not raise, and return exactly the input region objects, each once, with lines, ids, text and (up to de-skew round-off) geometry unchanged. Added sub-sweeps: 0-3 lines per region in four patterns, single-channel page images, int32 coordinates, line ids that are not unique on the page or absent, layouts of 12-16 regions, and a long-lived sorter per configuration compared with a fresh one. A 40-level nested spiral of regions.',
-    note='Lists longer than 5 regions are not explored; ImageWidthDenominator values that make the cluster radius 0 are a configuration error and excluded.',
+    text='Bounded exhaustive: every ordered list of 0-2 boxes over the 36-box lattice (incl. degenerate and identical boxes), every list of 3 boxes over a 16-box sub-lattice (quick) / all 36 (thorough), every list of 4 boxes over 6 (quick) / 4-5 boxes over 9 (thorough) mutually overlapping boxes, every list of 1-3 polygons over a 6-polygon alphabet, each with de-skew 0 / +-3 degrees, for the smart sorter with 3 intersection parameters and the naive sorter with 3 width denominators (about 5e4 sorter calls quick, 7e5 thorough). Each call must terminate (recursion limit 400, 5 s alarm), not raise, and return exactly the input region objects, each once, with lines, ids, text and (up to de-skew round-off) geometry unchanged. Added sub-sweeps: 0-3 lines per region in four patterns, single-channel page images, int32 coordinates, line ids that are not unique on the page or absent, layouts of 12-16 regions, and a long-lived sorter per configuration compared with a fresh one. A 40-level nested spiral of regions. Environment of process_page: besides "image and page_size given", the smart sorter is run with no image (page_size known) and with neither image nor page_size (a hand-built PageLayout reports (0, 0)) on every list of 2 boxes x de-skew +-3 degrees, every list of 2 polygons and the large layouts, and both sorters with an image but no page_size; the same oracle applies (geometry back in place within 1e-6).',
+    note='Lists longer than 5 regions are not explored; ImageWidthDenominator values that make the cluster radius 0 are a configuration error and excluded. The naive sorter is only run where an image is given (its cluster radius is defined as a fraction of the image width).',
     ref='3/C12')
 
 XS = [(0, 0), (0, 10), (0, 20), (10, 10), (10, 20), (20, 20)]
@@ -36,6 +38,10 @@ POLYS = [
 SKEWS = [0.0, 3.0, -3.0]
 INTERSECT = [0.0, 0.1, 0.5]
 DENOMS = [1, 10, 100]
+# what the caller tells the sorter about the page (the environment of process_page): the page image and / or PageLayout.page_size.
+# 'neither' is a layout built by hand or imported from a source without page size (PageLayout() reports (0, 0)) sorted by a caller
+# that has no image; the naive sorter takes its cluster radius from the image width, so it is only run where an image is given.
+PAGE_INFO = ['image-and-page-size', 'page-size-only', 'neither', 'image-only']
 BOUNDS = {'quick': dict(deep=[4], deep_alpha=6, three=16), 'thorough': dict(deep=[4, 5], deep_alpha=9, three=36)}
 BOUNDS['replay'] = BOUNDS['quick']
 
@@ -93,6 +99,13 @@ def run_shard(shard, ctx, tier):
                         for lid in (1, 2):
                             guarded_check(mod, {'boxes': lst, 'skew': sk, 'lineids': lid}, ctx)
                 if n == 2:
+                    for sk in (1, 2):              # the sorter knows neither the image nor the page size / only the page size
+                        guarded_check(mod, {'boxes': lst, 'skew': sk, 'lv': (sum(lst) + sk) % 3, 'env': 2}, ctx)
+                    guarded_check(mod, {'boxes': lst, 'skew': 1 + sum(lst) % 2, 'lv': lst[0] % 3, 'env': 1}, ctx)
+                if n == 2 and lst[0] % 5 == 4:
+                    for sk in range(3):            # an image, but a layout without page size
+                        guarded_check(mod, {'boxes': lst, 'skew': sk, 'env': 3}, ctx)
+                if n == 2:
                     for sk in (1, 2):
                         guarded_check(mod, {'boxes': lst, 'skew': sk}, ctx)
                         guarded_check(mod, {'boxes': lst, 'skew': sk, 'lv': 1 + (sum(lst) + sk) % 3}, ctx)
@@ -101,6 +114,8 @@ def run_shard(shard, ctx, tier):
             for sk in range(3):
                 for lv in (0, 2):
                     guarded_check(mod, {'many': layout, 'skew': sk, 'lv': lv}, ctx)
+                guarded_check(mod, {'many': layout, 'skew': sk, 'lv': 0, 'env': 2}, ctx)
+                guarded_check(mod, {'many': layout, 'skew': sk, 'lv': 2, 'env': 1 + 2 * (layout % 2)}, ctx)
     elif shard['kind'] == 'deep':
         n = shard['n']
         pre = [shard['first']] + ([shard['second']] if shard['second'] is not None else [])
@@ -112,6 +127,9 @@ def run_shard(shard, ctx, tier):
                 for sk in range(3):
                     for lv in range(4):
                         guarded_check(mod, {'polys': [shard['first']] + list(rest), 'skew': sk, 'lv': lv}, ctx)
+                    if n == 2:
+                        for env in (1, 2, 3):
+                            guarded_check(mod, {'polys': [shard['first']] + list(rest), 'skew': sk, 'lv': (sk + env) % 3, 'env': env}, ctx)
 
 
 LINE_COUNTS = [[2, 2, 2, 2, 2], [1, 0, 1, 0, 1], [0, 3, 1, 0, 2], [0, 0, 0, 0, 0]]      # text lines per region, by line variant
@@ -147,9 +165,9 @@ def many_boxes(layout):
 MANY_LAYOUTS = ['two-columns-of-seven', 'grid-4x4-shuffled', 'staircase-overlapping', 'one-column-bottom-up', 'nested-spiral-of-40']
 
 
-def build_page(polygons, skew_deg, lv=0, ints=False, lineids=0, rtl=False):
+def build_page(polygons, skew_deg, lv=0, ints=False, lineids=0, rtl=False, env=0):
     from pero_ocr.core.layout import PageLayout, RegionLayout, TextLine
-    page = PageLayout(id='p', page_size=(100, 1000))
+    page = PageLayout(id='p', page_size=(100, 1000)) if PAGE_INFO[env] in ('image-and-page-size', 'page-size-only') else PageLayout(id='p')
     for k, poly in enumerate(polygons):
         reg = RegionLayout(f'r{k}', np.asarray(poly, dtype=np.float64), region_type='paragraph')
         reg.transcription = f'text {k}'
@@ -205,7 +223,7 @@ def same_ring(a, b, tol):
 _SORTERS = {}
 
 
-def run_sorter(name, param, page, ctx, gray=False, shared=False):
+def run_sorter(name, param, page, ctx, gray=False, shared=False, env=0):
     import configparser
     from pero_ocr.layout_engines.smart_sorter import SmartRegionSorter
     from pero_ocr.layout_engines.naive_sorter import NaiveRegionSorter
@@ -221,6 +239,8 @@ def run_sorter(name, param, page, ctx, gray=False, shared=False):
     if shared:
         _SORTERS[(name, param)] = sorter
     img = np.zeros((100, 1000, 3), dtype=np.uint8) if not gray else np.zeros((100, 1000), dtype=np.uint8)
+    if PAGE_INFO[env] in ('page-size-only', 'neither'):
+        img = None
     old = sys.getrecursionlimit()
     sys.setrecursionlimit(400)
     try:
@@ -246,7 +266,8 @@ def check_case(case, ctx):
         polygons = [POLYS[i] for i in case['polys']]
         what = f'polygons {polygons}'
     skew = SKEWS[case['skew']]
-    ctx.state((what, skew, case.get('lv', 0), case.get('gray', 0), case.get('ints', 0), case.get('lineids', 0), case.get('rtl', 0)))
+    env = case.get('env', 0)
+    ctx.state((what, skew, case.get('lv', 0), case.get('gray', 0), case.get('ints', 0), case.get('lineids', 0), case.get('rtl', 0), env))
     if case.get('rtl'):
         ctx.tag('baselines-not-left-to-right')
     if case.get('lineids'):
@@ -254,16 +275,20 @@ def check_case(case, ctx):
     if case.get('ints'):
         ctx.tag('integer-coordinate-arrays')
     configs = [('smart', p) for p in INTERSECT] + [('naive', d) for d in DENOMS]
+    if PAGE_INFO[env] in ('page-size-only', 'neither'):
+        configs = [c for c in configs if c[0] == 'smart']      # the naive sorter's radius is a fraction of the image width: it needs the image
     if 'cfg' in case:
         configs = [tuple(case['cfg'])]
     for name, param in configs:
         sub = dict(case, cfg=[name, param])
         K = f'{ID}/{name}'
-        page = build_page(polygons, skew, case.get('lv', 0), ints=bool(case.get('ints')), lineids=case.get('lineids', 0), rtl=bool(case.get('rtl')))
+        page = build_page(polygons, skew, case.get('lv', 0), ints=bool(case.get('ints')), lineids=case.get('lineids', 0), rtl=bool(case.get('rtl')), env=env)
         before = snapshot(page)
-        desc = f'{name} sorter (parameter {param}), {what}, line skew {skew} deg, lines per region {LINE_COUNTS[case.get("lv", 0)][:len(polygons)]}'
+        desc = f'{name} sorter (parameter {param}), {what}, line skew {skew} deg, lines per region {LINE_COUNTS[case.get("lv", 0)][:len(polygons)]}' \
+               + (f', the sorter is given {PAGE_INFO[env]} (image {"None" if PAGE_INFO[env] in ("page-size-only", "neither") else "given"}, page_size {tuple(page.page_size)})' if env else '')
+        envkey = f'/{PAGE_INFO[env]}' if env else ''
         try:
-            out = run_sorter(name, param, page, ctx, gray=bool(case.get('gray')))
+            out = run_sorter(name, param, page, ctx, gray=bool(case.get('gray')), env=env)
         except CaseTimeout:
             ctx.violation('terminates', f'{K}/does-not-terminate', f'{desc}: no result within 5 s', sub)
             continue
@@ -302,19 +327,19 @@ def check_case(case, ctx):
                 bad = f'region {b[1]}: its lines changed'
                 break
             for lb, la in zip(b[5], s[5]):
-                if lb[4].shape != la[4].shape or np.abs(lb[4] - la[4]).max() > tol or not same_ring(lb[5], la[5], tol):
+                if lb[4].shape != la[4].shape or not (np.abs(lb[4] - la[4]).max() <= tol) or not same_ring(lb[5], la[5], tol):
                     bad = f'line {lb[1]}: geometry changed: baseline {lb[4].tolist()} -> {la[4].round(6).tolist()}'
                     break
             if bad:
                 break
         if bad:
-            ctx.violation('regions-intact', f'{K}/region-content-changed', f'{desc}: {bad}', sub)
+            ctx.violation('regions-intact', f'{K}/region-content-changed{envkey}', f'{desc}: {bad}', sub)
             continue
         # history: a sorter object that has sorted many other pages before orders this page like a fresh one
         if len(polygons) >= 2 and len(polygons) <= 3:
             try:
-                out2 = run_sorter(name, param, build_page(polygons, skew, case.get('lv', 0), ints=bool(case.get('ints')), lineids=case.get('lineids', 0), rtl=bool(case.get('rtl'))), ctx,
-                                  gray=bool(case.get('gray')), shared=True)
+                out2 = run_sorter(name, param, build_page(polygons, skew, case.get('lv', 0), ints=bool(case.get('ints')), lineids=case.get('lineids', 0), rtl=bool(case.get('rtl')), env=env), ctx,
+                                  gray=bool(case.get('gray')), shared=True, env=env)
                 order2 = [r.id for r in out2.regions]
             except CaseTimeout:
                 order2 = 'no result within 5 s'
@@ -330,6 +355,10 @@ def check_case(case, ctx):
             ctx.nontrivial((what, skew, name, param), 'order-actually-changed')
         if skew != 0 and name == 'smart' and len(polygons) >= 2:
             ctx.tag('de-skew-rotation-applied')
+            if env:
+                ctx.tag('de-skew-with-' + PAGE_INFO[env])
+        if env:
+            ctx.tag('sorter-given-' + PAGE_INFO[env])
     if 'deep' in case:
         ctx.tag('mutually-overlapping-lists')
     if len(polygons) == 3 and 'boxes' in case and case['boxes'][0] == 14 and case['boxes'][1] == 5:
@@ -340,9 +369,10 @@ def describe(tier):
     return {
         'rule': 'all ordered lists of 0..3 boxes (36-box lattice, repetitions allowed), lists of 4(/5) boxes over 9 mutually overlapping boxes, lists of 1..3 '
                 'polygons (6-polygon alphabet) x line skew {0,+3,-3} deg x {smart sorter x 3 intersection parameters, naive sorter x 3 denominators}. '
-                'state = (region list, skew). Non-trivial: calls whose output order differs from the input order.',
+    what the sorter is told about the page: {image + page_size, page_size only, neither (PageLayout() default (0, 0), image None), image only} on all 2-box lists, 2-polygon lists and the large layouts. state = (region list, skew, page information). Non-trivial: calls whose output order differs from the input order.',
         'bounds': BOUNDS[tier], 'alphabets': {'boxes': len(BOXES), 'overlapping': OVERLAPPING, 'polygons': POLYS, 'skews': SKEWS,
                                                'FakeIntersectionParameter': INTERSECT, 'ImageWidthDenominator': DENOMS},
         'assumptions': ['geometry compared within 1e-6 (the smart sorter rotates by the de-skew angle and back)', 'region ids are unique'],
-        'min_nontrivial': 100, 'required_tags': ['baselines-not-left-to-right', 'line-ids-not-unique-on-the-page', 'more-than-nine-regions', 'integer-coordinate-arrays', 'order-actually-changed', 'de-skew-rotation-applied', 'mutually-overlapping-lists'],
+        'min_nontrivial': 100, 'required_tags': ['baselines-not-left-to-right', 'line-ids-not-unique-on-the-page', 'more-than-nine-regions', 'integer-coordinate-arrays', 'order-actually-changed', 'de-skew-rotation-applied', 'mutually-overlapping-lists']
+                         + ['sorter-given-' + e for e in PAGE_INFO[1:]] + ['de-skew-with-' + e for e in PAGE_INFO[1:]],
     }
